@@ -39,7 +39,8 @@ TECHNIQUE = (
 RULE = (
     "setorder: corpus = all documents of <= 2 fragments of A1 (tie-rich) + every reporter string on which two extractors match "
     "the same span; per document every iteration of a controlled set x every order of the order menu; histories: all "
-    "sequences of <= 3 operations over 9 operations x 2 tokenizers; threads: all schedules within the preemption bound of "
+    "sequences of <= 3 operations over 9 operations x 2 tokenizers, plus all ordered pairs inside two generated families of "
+    "pairwise colliding operations (same names in other roles, same markup under other steps, same text under other options); threads: all schedules within the preemption bound of "
     "2-thread harnesses over colliding texts with cold lazy state. distinct = distinct (text, order plan) / history / schedule; "
     "non-trivial = an execution that deviates from the default order / has >= 2 calls / has >= 1 context switch."
 )
@@ -64,6 +65,28 @@ OPS = [
     ("markup2", {"markup": "<p><i>Foo v. Bar</i>, 1 U.S. 1 (1999). In <i>Bar</i> we held.</p>", "steps": ["html"]}),
     ("t4", {"text": "Adarand v. Pena, 515 U.S. ___ (1995). Adarand, 515 U.S., at ___. See 1 F.2d at ___."}),
 ]
+# Generated families of operations that collide pairwise on part of their input (same party names in other roles, same
+# markup under other cleaning steps, same text under another option, same reporter string under another year): all ORDERED
+# PAIRS inside a family are executed as two-call histories. A cache keyed on a part of the input leaks between them.
+_NAMES = ["Smithers", "State", "Jones"]
+FAMILIES = {"mk": [], "pl": []}
+for _p in _NAMES:
+    for _d in _NAMES:
+        if _p == _d:
+            continue
+        for _steps in (["html"], ["html", "all_whitespace"]):
+            FAMILIES["mk"].append((f"mk-{_p}-{_d}-{len(_steps)}", {"markup": f"<p><em>{_p} v. {_d}</em>, 1 U.S. 1 (1999).\n  In <em>{_p}</em> and in <em>{_d}</em> we held.</p>", "steps": _steps}))
+        for _rep, _yr in (("U.S.", "1999"), ("Wash. 2d", "1950")):
+            FAMILIES["pl"].append((f"pl-{_p}-{_d}-{_rep}", {"text": f"{_p} v. {_d}, 1 {_rep} 1 (Wyo. {_yr}). See {_p} at 5; {_d}, supra, at 3; 1 {_rep} at 7."}))
+FAMILIES["pl"] += [
+    ("pl-ra", {"text": "Smithers v. State, 1 Wash. 2d 1 (Wyo. 1950). See Smithers at 5; State, supra, at 3; 1 Wash. 2d at 7.", "remove_ambiguous": True}),
+    ("pl-yr", {"text": "Smithers v. State, 1 Wash. 2d 1 (Wyo. 1870). See Smithers at 5; State, supra, at 3; 1 Wash. 2d at 7."}),
+    ("pl-ct", {"text": "Smithers v. State, 1 Wash. 2d 1 (Wash. 1950). See Smithers at 5; State, supra, at 3; 1 Wash. 2d at 7."}),
+    ("pl-ws", {"text": "Smithers v. State,  1 Wash. 2d 1 (Wyo. 1950).\nSee Smithers at 5; State, supra, at 3; 1 Wash. 2d at 7."}),
+]
+ALL_OPS = dict(OPS)
+for _fam in FAMILIES.values():
+    ALL_OPS.update(dict(_fam))
 THREAD_HARNESSES = [
     ("Foo v. Bar, 1 U.S. 1. Id.", "See 2 U.S. 2, 3."),
     ("1 U.S. 1", "1 U.S. 1"),
@@ -360,7 +383,7 @@ def history_body(hist, tok):
         results = []
         live = []
         for name in hist:
-            op = dict(OPS)[name]
+            op = ALL_OPS[name]
             cits = run_op(op, tok)
             live.append(cits)
             results.append(sers(cits))
@@ -385,9 +408,9 @@ def check_history(hist, tok, baselines):
     return res
 
 
-def get_baselines(tok):
+def get_baselines(tok, ops=None):
     out = {}
-    for name, op in OPS:
+    for name, op in ops or OPS:
         status, r = in_fork(lambda op=op: (cold_all(), sers(run_op(op, tok)))[1])
         out[(tok, name)] = r if status == "ok" else ("exc", r)
     return out
@@ -396,9 +419,15 @@ def get_baselines(tok):
 def run_histories(st, sh):
     p = st.part("histories")
     tok = sh["tok"]
-    base = get_baselines(tok)
-    names = [o[0] for o in OPS]
-    hists = [list(h) for k in (1, 2, 3) for h in itertools.product(names, repeat=k)]
+    if sh.get("family"):
+        fam = FAMILIES[sh["family"]]
+        base = get_baselines(tok, fam)
+        names = [o[0] for o in fam]
+        hists = [list(h) for h in itertools.product(names, repeat=2)]
+    else:
+        base = get_baselines(tok)
+        names = [o[0] for o in OPS]
+        hists = [list(h) for k in (1, 2, 3) for h in itertools.product(names, repeat=k)]
     for hist in hists[sh["r"] :: sh["n"]]:
         res = check_history(hist, tok, base)
         st.evaluations += 1
@@ -579,6 +608,9 @@ def shards(tier, seed):
     for tok in ("AC", "HS"):
         for r in range(16):
             out.append({"part": "histories", "tok": tok, "r": r, "n": 16})
+        for fam in FAMILIES:
+            for r in range(4):
+                out.append({"part": "histories", "tok": tok, "family": fam, "r": r, "n": 4})
     out.append({"part": "threads"})
     return out
 
@@ -604,7 +636,7 @@ def replay(case):
         return [{"msg": f"{lab}: {det}", "label": lab} for lab, det in replay_seeds(case)]
     if part == "histories":
         tokenizer(case["tok"])
-        base = get_baselines(case["tok"])
+        base = get_baselines(case["tok"], [(n, ALL_OPS[n]) for n in set(case["hist"])])
         return [{"msg": f"{lab}: {det}", "label": lab} for lab, det in check_history(case["hist"], case["tok"], base)]
     if part == "threads":
         expected = sequential_expected(case["h"])
